@@ -1,7 +1,7 @@
 """C14 -- degree-of-freedom bookkeeping is a lossless partition for every BC set.
 
 E-PROD, literally exhaustive: every subset of (node, component) pairs of small meshes is
-declared essential, in three encodings, and DofManager / assemble_sparse_stiffness_matrix are
+declared essential, in four encodings, and DofManager / assemble_sparse_stiffness_matrix are
 compared with a python-set reference model.
 """
 import itertools
@@ -14,7 +14,7 @@ from mc.core import pick
 ID = "C14"
 TITLE = "DofManager partition / round trip / slicing / assembly index maps, every BC subset"
 LEVEL = "model_checking"
-RULE = ("E-PROD: (mesh, fields-per-node) x EVERY subset of an alphabet of (node, component) pairs x 3 encodings "
+RULE = ("E-PROD: (mesh, fields-per-node) x EVERY subset of an alphabet of (node, component) pairs x 4 encodings "
         "of the same subset; a case is one subset in one configuration (case id = mesh, dim, bitmask). "
         "each manager is re-checked after the managers of the next subset have been constructed (depth-2 construction history). "
         "Non-trivial = the subset is neither empty nor full, i.e. at least one element has both kinds of dof "
@@ -32,7 +32,7 @@ SHARDS = 8
 
 
 def bounds(tier):
-    return {"max_alphabet_pairs": 12 if tier == "quick" else 14, "encodings": 3,
+    return {"max_alphabet_pairs": 12 if tier == "quick" else 14, "encodings": 4,
             "configs": [c["name"] for c in _configs(tier)]}
 
 
@@ -129,10 +129,10 @@ def run_group(g, tier, seed, rec):
         def fail(sig, detail):
             rec.violation("DofManager|%s" % sig, cid, dict(detail, pairs=pairs, mesh=g["mesh"], dim=dim))
 
-        # three encodings of the same subset
+        # four encodings of the same subset
         managers = []
         try:
-            for enc in ("singletons", "grouped", "repeated"):
+            for enc in ("singletons", "grouped", "repeated", "component-major"):
                 nodeSets, ebcs = _encode(pairs, dim, enc, FunctionSpace)
                 m2 = MeshMod.mesh_with_nodesets(mesh, nodeSets)
                 fs = types.SimpleNamespace(mesh=m2)
@@ -162,7 +162,7 @@ def run_group(g, tier, seed, rec):
             except Exception as e:  # noqa
                 from mc.runner import exception_key
                 rec.violation("DofManager|history|" + exception_key(e), cid, {"previous_case": prev["cid"], "error": repr(e)})
-        for enc, other in zip(("grouped", "repeated"), managers[1:]):
+        for enc, other in zip(("grouped", "repeated", "component-major"), managers[1:]):
             same = (onp.array_equal(dm.isBc, other.isBc) and onp.array_equal(dm.unknownIndices, other.unknownIndices)
                     and onp.array_equal(dm.bcIndices, other.bcIndices)
                     and onp.array_equal(dm.HessRowCoords, other.HessRowCoords)
@@ -265,7 +265,7 @@ def run_group(g, tier, seed, rec):
             prev = {"dm": None}
         nontrivial = 0 < len(bc) < nd and mixed
         outcome = "empty" if not bc else ("full" if not unk else ("mixed-elements" if mixed else "unmixed"))
-        rec.case(cid, nontrivial=nontrivial, outcome=outcome, steps=3,
+        rec.case(cid, nontrivial=nontrivial, outcome=outcome, steps=4,
                  sample=({"case": cid, "pairs": pairs, "unknown": unk, "bc": bc} if mask in sample_ids else None))
 
 
@@ -274,6 +274,12 @@ def _encode(pairs, dim, enc, FunctionSpace):
     if enc == "singletons":
         nodeSets = {"n%d" % n: onp.array([n]) for n, _ in pairs}
         ebcs = [EBC(nodeSet="n%d" % n, component=c) for n, c in pairs]
+        return nodeSets, ebcs
+    if enc == "component-major":
+        # one node set per node, the BC list written component by component: the same node-set name recurs with other
+        # entries in between (added after a seeded change that grouped only CONSECUTIVE entries of a set went undetected)
+        nodeSets = {"n%d" % n: onp.array([n]) for n, _ in pairs}
+        ebcs = [EBC(nodeSet="n%d" % n, component=c) for n, c in sorted(pairs, key=lambda q: (q[1], -q[0]))]
         return nodeSets, ebcs
     bycomp = {}
     for n, c in pairs:
